@@ -18,7 +18,7 @@ RULE = ("worlds as C07 but estimator and uninterrupted charging off, unequal vol
         "inconclusive; non-trivial = call with >=2 constraints binding and >=3 active sessions; distinct = history signature")
 PROBES = ["greedy_call_checked", "rr_call_checked", "uncontrolled_call_checked", "tie_inconclusive", "guard_inconclusive",
           "bisection_used", "ub_granted", "finite_level_lowered", "two_constraints_binding", "eps_probe", "order_matters",
-          "rr_blocked_session", "call_after_reconfig", "uninterrupted_call", "min_pilot_refused"]
+          "rr_blocked_session", "call_after_reconfig", "uninterrupted_call", "min_pilot_refused", "direct_schedule_call_shared_bounds"]
 FAULT_DIMENSION = ("environment fault only: the operator changes a constraint limit between two periods of the run "
                    "(ChargingNetwork.update_constraint); otherwise reached-state distribution")
 ASSUMPTIONS = ["priority keys pairwise distinct (else the call is inconclusive)",
@@ -125,6 +125,29 @@ def check(sc):
     state = {"n": 0}
 
     def setup(ctx, party):
+        if kind in ("greedy", "rr"):
+            def direct(party_, iface, rec, sched):
+                # the algorithm called directly (public schedule()) on sessions the caller built itself: generous bounds given
+                # as views of ONE shared buffer, as numpy users do; the answer must be the one just given for the same state
+                r_ = sub(sc["seed"], "direct", rec["t"])
+                if state.get("direct", 0) >= 2 or r_.random() < 0.6 or pre.viol:
+                    return
+                state["direct"] = state.get("direct", 0) + 1
+                mine = iface.active_sessions()
+                if not mine:
+                    return
+                buf = np.full(max(s_.remaining_time for s_ in mine) + 1, 1000.0)
+                custom = [sut.SessionInfo(s_.station_id, s_.session_id, s_.requested_energy, s_.energy_delivered, s_.arrival, s_.departure,
+                                          s_.estimated_departure, s_.current_time, min_rates=0, max_rates=buf[: s_.remaining_time])
+                          for s_ in mine]
+                again = party_.inner.schedule(custom)
+                pre.probe("direct_schedule_call_shared_bounds")
+                a_ = {k_: [float(x) for x in v_] for k_, v_ in again.items()}
+                b_ = {k_: [float(x) for x in v_] for k_, v_ in sched.items()}
+                if a_ != b_:
+                    pre.add("C08/direct_call_differs", "t=%d: schedule() on caller-built sessions (max_rates = views of one shared buffer of 1000 A) "
+                            "gives %s, the run's own call gave %s" % (rec["t"], a_, b_))
+            ctx.post_hooks.append(direct)
         if kind != "greedy":
             return
 
